@@ -86,9 +86,9 @@ func runBatch(c *fw.Ctx, tier string, b int, shapes []*prog.Shape, keep bool) ([
 		name := fmt.Sprintf("s%05d", i)
 		progs = append(progs, prog.Program{Name: name, Target: s.Sig(), Type: "T", Source: s.Source(name)})
 	}
-	sNodes, pairCap := "3", "10"
+	sNodes, pairCap := "5", "10"
 	if tier == "thorough" {
-		sNodes, pairCap = "4", "14"
+		sNodes, pairCap = "6", "14"
 	}
 	cfg := prog.BatchConfig{
 		MCDir:      os.Getenv("VERIF_MC"),
